@@ -832,7 +832,31 @@ func init() {
 					s.A = 0
 					return []pathsim.State{s}
 				}
-				if isKeep(c, ev) {
+				// a destination chosen through a pointer: dest := &pending; if retained { dest = &next };
+				// *dest = append(*dest, cp) — s.V[1] records which list the pointer names on this path
+				if ev.Kind == pathsim.EvAssign && len(ev.Lhs) == 1 && len(ev.Rhs) == 1 {
+					if u, isAddr := ast.Unparen(ev.Rhs[0]).(*ast.UnaryExpr); isAddr && u.Op == token.AND {
+						if _, isID := ast.Unparen(ev.Lhs[0]).(*ast.Ident); isID {
+							switch {
+							case keepSet[prog.IdentObjPlain(c.Info, u.X)]:
+								s.V[1] = pathsim.True
+								return []pathsim.State{s}
+							case prog.SelField(c.Info, u.X) == pendF:
+								s.V[1] = pathsim.False
+								return []pathsim.State{s}
+							}
+						}
+					}
+				}
+				viaPtr := pathsim.Unknown
+				if ev.Kind == pathsim.EvAssign && len(ev.Lhs) == 1 && ev.Node.Pos() > loop.Pos() && ev.Node.End() <= loop.End() {
+					if st, isStar := ast.Unparen(ev.Lhs[0]).(*ast.StarExpr); isStar {
+						if _, isID := ast.Unparen(st.X).(*ast.Ident); isID {
+							viaPtr = s.V[1]
+						}
+					}
+				}
+				if isKeep(c, ev) || viaPtr == pathsim.True {
 					nKeep++
 					if s.V[0] != pathsim.True {
 						c.Violate(ev.Pos, "[keep-unlisted] a checkpoint whose id is not in the retained set is kept")
@@ -840,7 +864,7 @@ func init() {
 					s.A = 2
 					return []pathsim.State{s}
 				}
-				if isDrop(c, ev) {
+				if isDrop(c, ev) || viaPtr == pathsim.False {
 					nDrop++
 					if s.V[0] != pathsim.False {
 						c.Violate(ev.Pos, "[drop-retained] a checkpoint whose id IS in the retained set is queued for destruction: its WAL file is deleted on the next Save")
@@ -1159,9 +1183,20 @@ func (r *Run) indexCoversAllLevels(pkg *packages.Package, cl *ast.CompositeLit, 
 	// the level list stored in the literal, and (document form) the level documents it is built from
 	levelsObj := prog.IdentObj(info, levelsVal)
 	docLevels := map[string]bool{}
+	docLevelVars := map[types.Object]bool{}
 	ast.Inspect(deref(info, levelsVal), func(q ast.Node) bool {
-		if sel, isSel := q.(*ast.SelectorExpr); isSel && sel.Sel.Name == "Levels" {
-			docLevels[types.ExprString(sel)] = true
+		switch x := q.(type) {
+		case *ast.SelectorExpr:
+			if x.Sel.Name == "Levels" {
+				docLevels[types.ExprString(x)] = true
+			}
+		case *ast.Ident:
+			if sel, isSel := ast.Unparen(deref(info, x)).(*ast.SelectorExpr); isSel && sel.Sel.Name == "Levels" {
+				docLevels[types.ExprString(sel)] = true
+				if o := info.Uses[x]; o != nil {
+					docLevelVars[o] = true
+				}
+			}
 		}
 		return true
 	})
@@ -1180,6 +1215,10 @@ func (r *Run) indexCoversAllLevels(pkg *packages.Package, cl *ast.CompositeLit, 
 			return false
 		}
 		if sel, isSel := ast.Unparen(deref(info, e)).(*ast.SelectorExpr); isSel && docLevels[types.ExprString(sel)] {
+			return true
+		}
+		// both through the same local (levelDocs := doc.Levels)
+		if o := prog.IdentObjPlain(info, e); o != nil && docLevelVars[o] {
 			return true
 		}
 		return false
